@@ -424,8 +424,20 @@ Definition judge_coll (obs : sx) : sx :=
       LL [SS (if jeqb before after && jeqb doc1 doc2 then "ok" else "bad"); m; LL [e_bool (jeqb before after); e_bool (jeqb doc1 doc2)]]
   | _, _, _, _ => LL [SS "bad"; SS "?"; SS "missing-observation"]
   end.
+(** content dtypes outside the modelled enumeration (int8, unsigned integers): the reported dtype, the element types of the
+    parsed arrays and the dtype written again are the original's name; contents, squared errors and missed counts come back *)
+Definition judge_narrow (case obs : sx) : sx :=
+  match fld "dtype" case, fld "dtypes_after" obs, fld "freq" case, fld "freq_after" obs, fld "err2_after" obs, fld "missed_before" obs, fld "missed_after" obs with
+  | Some (SS dtn), Some (LL names), Some f, Some fa, Some ea, Some mb, Some ma =>
+      let ok := forallb (fun n => match n with SS x => String.eqb x dtn | _ => false end) names && negb (Nat.eqb (length names) 0) &&
+                sx_eqb f fa && sx_eqb f ea && sx_eqb mb ma in
+      LL [SS (if ok then "ok" else "bad"); SS "narrow"; SS (if ok then "" else "narrow-dtype-round-trip")]
+  | _, _, _, _, _, _, _ =>
+      match fld "error" obs with Some e => LL [SS "bad"; SS "narrow"; e] | None => LL [SS "bad"; SS "narrow"; SS "missing-observation"] end
+  end.
 Definition judge_C08 (case obs : sx) : sx :=
   match fld "kind" case with
+  | Some (SS "narrow") => judge_narrow case obs
   | Some (SS "hist") => judge_hist obs
   | Some (SS "doc") => judge_doc case obs
   | Some (SS "version") => judge_version case obs
